@@ -228,13 +228,15 @@ def judge_play(ctx, mid, model, pattern, oversleep, meta_messages, seed):
     typical = (total / max(len(model), 1)) or 0.001
     clock = FakeTime(oversleep)
     # the supplied clock may count from zero (a stream position), from a negative value, or be huge
-    clock.now = rng.choice((1000.0, 0.0, 0.0, -50.0, 1.7e9))
+    # ... and its readings may be ints as long as whole seconds have passed (a counter, a test double started at 0)
+    clock.now = rng.choice((1000.0, 0.0, 0.0, -50.0, 1.7e9, 0, 1000, -50, 1700000000))
     orig = mf.time
     mf.time = clock
     try:
         gen = mid.play(meta_messages=meta_messages, now=clock.time)
         # the player may be created long before it is started: playback begins at the first next()
-        clock.now += rng.choice((0.0, 0.0, 0.0, 3.0, 1000.0))
+        late = rng.choice((0, 0, 0, 3, 1000))
+        clock.now += late if isinstance(clock.now, int) else float(late)
         start = clock.now
         want = [(w, c) for w, c in model if meta_messages or not w.is_meta]
         idx = 0
@@ -427,24 +429,72 @@ def other_platform_case(ctx, platform, seed):
 
 
 def type2_cases(ctx):
+    """A type 2 file refuses - however it came to be one: built as one, loaded from bytes that say so (from memory and from
+    disk), or made one by assigning .type; and a file that stopped being one (type = 1) plays like any other."""
+    import io
+    import os
+    import tempfile
     n = 0
-    for ntr in (0, 1, 3):
+
+    def tracks(ntr):
+        return [MidiTrack([Message('note_on', time=5), MetaMessage('end_of_track')]) for _ in range(ntr)]
+
+    def built(ntr):
         mid = MidiFile(type=2)
-        for _ in range(ntr):
-            mid.tracks.append(MidiTrack([Message('note_on', time=5), MetaMessage('end_of_track')]))
-        for what, thunk in (('iter', lambda: list(mid)), ('length', lambda: mid.length),
-                            ('play', lambda: list(mid.play(now=lambda: 0.0))),
-                            ('play-meta', lambda: list(mid.play(meta_messages=True, now=lambda: 0.0)))):
-            case = {'kind': 'type2', 'tracks': ntr, 'what': what}
-            try:
-                r = thunk()
-                ctx.check('type 2 refuses', False, f'type2-{what}-accepted', case, repr(r)[:80])
-            except (TypeError, ValueError):
-                ctx.count('type 2 refuses')
-            except Exception as exc:
-                ctx.check('type 2 refuses', False, f'type2-{what}-{type(exc).__name__}', case,
-                          f'{type(exc).__name__}: {exc}')
-            n += 1
+        mid.tracks.extend(tracks(ntr))
+        return mid
+
+    def loaded(ntr):
+        b = io.BytesIO()
+        built(ntr).save(file=b)
+        return MidiFile(file=io.BytesIO(b.getvalue()))
+
+    def loaded_from_disk(ntr):
+        fd, path = tempfile.mkstemp(suffix='.mid', prefix='vmon-c13-')
+        os.close(fd)
+        try:
+            built(ntr).save(path)
+            return MidiFile(path)
+        finally:
+            os.remove(path)
+
+    def assigned(ntr):
+        mid = MidiFile(type=1)
+        mid.tracks.extend(tracks(ntr))
+        list(mid)
+        mid.type = 2
+        return mid
+
+    def kw_tracks(ntr):
+        return MidiFile(type=2, tracks=tracks(ntr))
+
+    for origin, make in (('built', built), ('loaded', loaded), ('loaded-from-disk', loaded_from_disk), ('assigned', assigned),
+                         ('tracks-keyword', kw_tracks)):
+        for ntr in (0, 1, 3):
+            mid = make(ntr)
+            for what, thunk in (('iter', lambda: list(mid)), ('length', lambda: mid.length),
+                                ('play', lambda: list(mid.play(now=lambda: 0.0))),
+                                ('play-meta', lambda: list(mid.play(meta_messages=True, now=lambda: 0.0)))):
+                case = {'kind': 'type2', 'tracks': ntr, 'what': what, 'origin': origin}
+                try:
+                    r = thunk()
+                    ctx.check('type 2 refuses', False, f'type2-{what}-accepted', case, repr(r)[:80])
+                except (TypeError, ValueError):
+                    ctx.count('type 2 refuses')
+                except Exception as exc:
+                    ctx.check('type 2 refuses', False, f'type2-{what}-{type(exc).__name__}', case,
+                              f'{type(exc).__name__}: {exc}')
+                n += 1
+            # ... and no longer one
+            if ntr:
+                mid.type = 1
+                case = {'kind': 'type2', 'tracks': ntr, 'what': 'retyped-1', 'origin': origin}
+                try:
+                    got = [m.type for m in mid]
+                    ctx.check('type 2 refuses', len(got) == ntr + 1 and mid.length > 0, 'former-type2-does-not-play', case, got)
+                except Exception as exc:
+                    ctx.check('type 2 refuses', False, f'former-type2-{type(exc).__name__}', case, f'{type(exc).__name__}: {exc}')
+                n += 1
     return n
 
 
